@@ -33,6 +33,15 @@ type vocab struct {
 	likePats   []string
 	labelNames []string
 	matchers   [][3]string // label, op, value of the stream selector
+	steer      map[string][]string // label ↦ values that decide one of the query's comparisons on it (the value itself, ±1, a match)
+	never      map[string]bool     // label names no stream is stored with
+}
+
+func (v *vocab) steerTo(label string, vals ...string) {
+	if v.steer == nil {
+		v.steer = map[string][]string{}
+	}
+	v.steer[label] = append(v.steer[label], vals...)
 }
 
 func likeEsc(s string) string {
@@ -51,13 +60,16 @@ func collectLabelFilter(lf *logql_parser.LabelFilter, v *vocab) {
 			if x, err := s.StrVal.Unquote(); err == nil {
 				if s.Fn == "=~" || s.Fn == "!~" {
 					v.regexes = append(v.regexes, x)
+					v.steerTo(s.Label.Name, strings.Trim(strings.TrimPrefix(x, "(?i)"), "^$.*()[]+?\\"))
 				} else {
 					v.labelVals = append(v.labelVals, x)
+					v.steerTo(s.Label.Name, x)
 				}
 			}
 		} else if f, err := strconv.ParseFloat(s.NumVal, 64); err == nil {
 			v.numLits = append(v.numLits, fmt.Sprintf("%f", f))
 			v.labelVals = append(v.labelVals, s.NumVal, strconv.FormatFloat(f+1, 'f', -1, 64), strconv.FormatFloat(f-1, 'f', -1, 64))
+			v.steerTo(s.Label.Name, s.NumVal, strconv.FormatFloat(f+1, 'f', -1, 64), strconv.FormatFloat(f-1, 'f', -1, 64))
 		}
 	}
 	collectLabelFilter(lf.Tail, v)
@@ -118,8 +130,16 @@ func genLokiDB(r *h.Rng, c qctx, v vocab) *lokiDB {
 		// label set: mostly the names the query mentions
 		lbls := map[string]string{}
 		for _, n := range v.labelNames {
+			if v.never[n] {
+				continue
+			}
 			if r.Chance(80) {
 				lbls[n] = h.Pick(r, valPool)
+				// half of the time a value that decides one of the query's comparisons on this label: each comparison has to be
+				// true of some streams and false of others
+				if st := v.steer[n]; len(st) > 0 && r.Chance(50) {
+					lbls[n] = h.Pick(r, st)
+				}
 			}
 		}
 		for i := r.Intn(3); i > 0; i-- {
@@ -279,12 +299,17 @@ func (db *lokiDB) oracleTables(v vocab) string {
 
 // c07Sem: the statement the real planner BUILT (reflection dump) is evaluated by Sql.evalSel on small
 // databases and compared with the direct reading LogQL.evalLog: the oracle of C07, on implementation output.
-func c07Sem(r *h.Result, rng *h.Rng, n int) error {
+func c07Sem(r *h.Result, rng *h.Rng, n int) error { return c07SemCov(r, rng, n, nil, nil) }
+
+func c07SemCov(r *h.Result, rng *h.Rng, n int, cov *c07gCov, atoms map[string]int) error {
 	r.Stream("sem: reflection dump of the real planner's sql_select tree → Sql.evalSel on generated databases vs LogQL.evalLog (oracle on implementation output); also renderSel(dump) = real text")
 	var ops, renderOps, implText []string
 	var cases []map[string]any
 	for i := 0; i < n; i++ {
 		query := genLogQuery(rng, 3, 3)
+		if i%2 == 1 {
+			query = c07gQuery(rng, c07gGuided(c07gCfgPlain, cov)) // derived from the grammar (c07gram.go)
+		}
 		c := genCtx(rng)
 		if c.Limit > 100 {
 			c.Limit = int64(rng.Range(1, 4))
@@ -311,7 +336,19 @@ func c07Sem(r *h.Result, rng *h.Rng, n int) error {
 		}
 		dump := hx(sqldump.Dump(sel))
 		v := collectVocab(script)
+		v.never = map[string]bool{}
+		for _, nm := range c07gNeverStored {
+			v.never[nm] = true
+		}
+		if cov != nil {
+			c07gObserve(script, -1, cov.add)
+			c07gAtoms(script, -1, func(k string) { atoms[k]++ })
+		}
 		db := genLokiDB(rng, c, v)
+		if cov != nil {
+			atoms["truth:measured"]++
+			c07gTruth(script, -1, db.docs, func(k string) { atoms["truth:"+k]++ })
+		}
 		ops = append(ops, fmt.Sprintf("c07sem %s %s %s %s %s %s %s", c.ser(), ser, joinOrDash(db.gin, ";"), joinOrDash(db.ts, ";"), joinOrDash(db.smp, ";"), db.oracleTables(v), dump))
 		renderOps = append(renderOps, "sqlrender "+dump)
 		implText = append(implText, hx(text))
